@@ -3,6 +3,7 @@ import XeofsProofs.Lemmas.Scale
 import XeofsProofs.Lemmas.SpecPow
 import XeofsProofs.Lemmas.Corr
 import XeofsProofs.Lemmas.CpccaModel
+import XeofsModel.Generated.Facts
 /-!
 # C09 — cross-set models diagonalise the (partially whitened) cross-covariance
 -/
@@ -78,5 +79,11 @@ theorem model_scores_cross_cov_diag {n p q r k : ℕ} (hk : k ≤ r) (X : XM.Mat
 theorem model_cross_cov {n p q : ℕ} (X : XM.Mat n p 𝕜) (Y : XM.Mat n q 𝕜) :
     (XM.crossCov (ρ := ℝ) X Y).toMatrix = (((n : ℝ) - 1 : ℝ) : 𝕜)⁻¹ • ((X.toMatrix)ᴴ * Y.toMatrix) := by
   rw [XP.CpccaM.crossCov_toMatrix]; simp [Gen.crossCovDenominator]
+
+/-- source obligation (Hilbert variants): the analytic signal handed to the cross-covariance is centred — the mean of the imaginary
+part is removed per feature, for every padding mode, after the padding has been cut away — so "covariance" of the scores is a
+genuine covariance -/
+theorem src_hilbert_fields_centred :
+    Gen.hilbertRecentreMeanArgs = "axis=0" ∧ Gen.hilbertRecentreAfterCutUnconditional = true := by decide
 
 end C09
